@@ -436,6 +436,17 @@ Fixpoint search (r : re) (st : bool) (states : list (list re)) (cs : list N) : b
       search r false (dedup (flat_map (pd_seq st c) states')) cs'
   end.
 
+(* every counted repetition has mn <= mx.  The lexer only emits such repetitions, so this check
+   never fails on a parsed pattern; it is re-checked in regex_match so that the soundness theorem
+   (OracleProofs.regex_match_sound) needs no lemma about the lexer. *)
+Fixpoint wfb (r : re) : bool :=
+  match r with
+  | Rep a mn mx => wfb a && match mx with Some m => mn <=? m | None => true end
+  | Cat a b | Alt a b => wfb a && wfb b
+  | Star a | Plus a => wfb a
+  | _ => true
+  end.
+
 Definition max_pattern_len : N := 1000.
 Definition max_size_budget : N := 3000000.
 
@@ -452,5 +463,6 @@ Definition regex_match (pattern subject : bytes) : rx_result :=
     | POk r prod =>
         (* stay inside Go's "no size tracking needed" fast path (parser.checkSize) *)
         if max_size_budget <=? prod * (8 * N.of_nat (length pattern) + 16) then RxUnsupported
+        else if negb (wfb r) then RxUnsupported        (* unreachable, see wfb *)
         else RxMatch (search r true [] (code_points subject))
     end.
